@@ -9,7 +9,7 @@
    signature that recovers to the victim's address on a hash / with components
    the victim never produced — an ECDSA forgery). *)
 From AQ Require Import Lib.Bytes Lib.Keccak Rlp.RlpSpec Signing.SigningModel Signing.SigningProofs
-  Generated.GenSigners Signing.SigningGen.
+  Generated.GenSigners Signing.SigningGen Signing.SigningHighS.
 Local Open Scope N_scope.
 
 (* 1. The signing hash covers nonce, price, limit, recipient, value, data and the
@@ -165,6 +165,31 @@ Theorem C12_eip155_high_s_refuted :
     is_protected_v (t_v t) = true /\ secp_half_n < t_s t.
 Proof. exact (ex_intro _ w_tx (ex_intro _ w_sender eip155_high_s_witness)). Qed.
 Print Assumptions C12_eip155_high_s_refuted.
+
+(* Full form with the exact carve-out: the only signers that attribute a sender to a transaction
+   with S > N/2 are FrontierSigner (no low-S rule, by specification) and EIP155Signer on a
+   replay-protected V (finding eip155-accepts-high-s).  Everything else rejects. *)
+Theorem C12_high_s_rejected :
+  forall H ecrecover (sg : signer) (t : tx) (a : bytes),
+    ~ (sg = Frontier \/ exists c, sg = EIP155 c /\ is_protected_v (t_v t) = true) ->
+    secp_half_n < t_s t -> sender_signer H ecrecover sg t <> Ok a.
+Proof. exact high_s_rejected_full. Qed.
+Print Assumptions C12_high_s_rejected.
+
+Theorem C12_high_s_accepted_only_in_carve_out :
+  forall H ecrecover (sg : signer) (t : tx) (a : bytes),
+    sender_signer H ecrecover sg t = Ok a -> secp_half_n < t_s t ->
+    sg = Frontier \/ exists c, sg = EIP155 c /\ is_protected_v (t_v t) = true.
+Proof. exact high_s_accepted_only_in_carve_out. Qed.
+Print Assumptions C12_high_s_accepted_only_in_carve_out.
+
+(* The clause without the EIP-155 carve-out is false of the code (witness: w_tx above,
+   Keccak in Coq, Ecrecover answers recorded from secp256k1). *)
+Theorem C12_high_s_rejected_refuted :
+  ~ (forall H ecrecover (sg : signer) (t : tx) (a : bytes),
+       sg <> Frontier -> secp_half_n < t_s t -> sender_signer H ecrecover sg t <> Ok a).
+Proof. exact high_s_rejected_refuted. Qed.
+Print Assumptions C12_high_s_rejected_refuted.
 
 (* 5. The `from` cache answers only what the signer itself would answer. *)
 Theorem C12_cache_sound :
